@@ -10,6 +10,7 @@ import (
 	"sort"
 	"strconv"
 	"strings"
+	"sync"
 	"time"
 )
 
@@ -650,12 +651,49 @@ func (r *Router) order(as []*Term) []string {
 	return []string{"z3", "cvc5", "z3-new"}
 }
 
+// Check decides the conjunction by independent components: conjuncts that share no free symbol and
+// no uninterpreted function (transitively) are decided separately (each by the solver suited to its
+// theories) and memoised separately.  The conjunction is sat iff every component is.
 func (r *Router) Check(as ...*Term) Result {
-	res, _ := r.CheckModel(as, nil)
-	return res
+	var live []*Term
+	for _, a := range as {
+		if a.IsFalse() {
+			return Unsat
+		}
+		if !a.IsTrue() {
+			live = append(live, a)
+		}
+	}
+	comps := Components(live)
+	if len(comps) <= 1 {
+		res, _ := r.checkFull(live, nil)
+		return res
+	}
+	out := Sat
+	for _, c := range comps {
+		res, _ := r.checkFull(c, nil)
+		if res == Unsat {
+			return Unsat
+		}
+		if res == Unknown {
+			out = Unknown
+		}
+	}
+	return out
 }
 
+// CheckModel: a sliced Check first (cheap, memoised); the full query only when a model is needed.
 func (r *Router) CheckModel(as []*Term, syms []*Term) (Result, map[string]ModelVal) {
+	if syms == nil {
+		return r.Check(as...), nil
+	}
+	if res := r.Check(as...); res == Unsat {
+		return Unsat, nil
+	}
+	return r.checkFull(as, syms)
+}
+
+func (r *Router) checkFull(as []*Term, syms []*Term) (Result, map[string]ModelVal) {
 	for _, a := range as {
 		if a.IsFalse() {
 			return Unsat, nil
@@ -689,4 +727,88 @@ func (r *Router) Stats() (queries, unknowns int, secs float64, names []string) {
 	}
 	sort.Strings(names)
 	return
+}
+
+// symbolKeys returns the free symbols and UF names below t (memoised per term id).
+var symKeyMemo = map[int][]string{}
+var symKeyMu sync.Mutex
+
+func symbolKeys(t *Term) []string {
+	symKeyMu.Lock()
+	if k, ok := symKeyMemo[t.ID]; ok {
+		symKeyMu.Unlock()
+		return k
+	}
+	symKeyMu.Unlock()
+	set := map[string]bool{}
+	seen := map[int]bool{}
+	var walk func(x *Term)
+	walk = func(x *Term) {
+		if seen[x.ID] {
+			return
+		}
+		seen[x.ID] = true
+		switch x.Op {
+		case "var":
+			set["v:"+x.Name] = true
+		case "uf":
+			set["f:"+x.Name] = true
+		}
+		for _, a := range x.Args {
+			walk(a)
+		}
+	}
+	walk(t)
+	out := make([]string, 0, len(set))
+	for k := range set {
+		out = append(out, k)
+	}
+	sort.Strings(out)
+	symKeyMu.Lock()
+	symKeyMemo[t.ID] = out
+	symKeyMu.Unlock()
+	return out
+}
+
+// Components partitions conjuncts into groups connected through shared symbols / UF names.
+func Components(as []*Term) [][]*Term {
+	parent := make([]int, len(as))
+	for i := range parent {
+		parent[i] = i
+	}
+	var find func(i int) int
+	find = func(i int) int {
+		for parent[i] != i {
+			parent[i] = parent[parent[i]]
+			i = parent[i]
+		}
+		return i
+	}
+	owner := map[string]int{}
+	for i, a := range as {
+		for _, k := range symbolKeys(a) {
+			if j, ok := owner[k]; ok {
+				ri, rj := find(i), find(j)
+				if ri != rj {
+					parent[ri] = rj
+				}
+			} else {
+				owner[k] = i
+			}
+		}
+	}
+	groups := map[int][]*Term{}
+	var order []int
+	for i, a := range as {
+		r := find(i)
+		if _, ok := groups[r]; !ok {
+			order = append(order, r)
+		}
+		groups[r] = append(groups[r], a)
+	}
+	out := make([][]*Term, 0, len(order))
+	for _, r := range order {
+		out = append(out, groups[r])
+	}
+	return out
 }
